@@ -15,8 +15,34 @@ def spec(A, B, expr, weight=1, time_budget=None, **kw):
     return dict(module="checks.c01", scenario="BoolExpr", params=p, weight=weight, time_budget=time_budget)
 
 
-def specs(tier):
+def curved_specs(tier):
+    """operands with quadratic sides: concrete placements, the query point free (checks/curvedops.py)"""
+    from checks.curvedops import CONFIGS
+
     out = []
+    quick = tier == "quick"
+    confs = [c for c in CONFIGS if (c[0], c[1], c[2][0]) in {("lens", "vee", "0"), ("lens", "sq1", "3/2"), ("dome", "sq2", "3"), ("pill", "slab", "1"), ("blob", "lens", "0"), ("bite", "sq2", "1"), ("dome", "blob", "2"),
+                                                           ("lens", "slab", "3/2")}] if quick else CONFIGS
+    for A, B, sh, sc in confs:
+        for op in OPS:
+            out.append(dict(module="checks.curvedops", scenario="CurvedOps", params=dict(A=A, B=B, op=op, shift=list(sh), scaleB=str(sc), num="float"), time_budget=600 if quick else 2400))
+    out.append(dict(module="checks.curvedops", scenario="CurvedOps", params=dict(A="pill", B="slab", op="-", shift=["1", "-2"], num="frac"), time_budget=600))
+    out.append(dict(module="checks.curvedops", scenario="CurvedOps", params=dict(A="dome", B="sq2", op="|", shift=["1", "-1"], num="frac"), time_budget=600))
+    if not quick:
+        for A, B, sh, sc in CONFIGS[:8]:
+            for op in ("&", "|"):  # complements of curved operands
+                out.append(dict(module="checks.curvedops", scenario="CurvedOps", params=dict(A=A, B=B, op=op, shift=list(sh), scaleB=str(sc), num="float", invA=True), time_budget=2400))
+                out.append(dict(module="checks.curvedops", scenario="CurvedOps", params=dict(A=A, B=B, op=op, shift=list(sh), scaleB=str(sc), num="float", invB=True), time_budget=2400))
+        for A, B, sh in (("lens", "slab", ("1", "-3")), ("pill", "slab", ("1", "-2")), ("dome", "sq2", ("1", "-1")), ("blob", "sq2", ("-1", "-1")), ("lens", "sq2", ("1", "-6/5"))):
+            for op in OPS:  # exact rational coordinates, crossings at rational parameters
+                out.append(dict(module="checks.curvedops", scenario="CurvedOps", params=dict(A=A, B=B, op=op, shift=list(sh), num="frac"), time_budget=2400, weight=3))
+        # exact rational coordinates, a crossing at an irrational parameter (recorded finding KF-C01-4)
+        out.append(dict(module="checks.curvedops", scenario="CurvedOps", params=dict(A="dome", B="sq2", op="&", shift=["3", "1/2"], num="frac"), time_budget=2400, weight=5))
+    return out
+
+
+def specs(tier):
+    out = curved_specs(tier)
     if tier == "quick":
         for A, B in PAIRS_QUICK:
             for op in OPS:
@@ -62,5 +88,7 @@ def main(tier, seed):
         explanation="The real operators executed under SYMX with B translated symbolically (1 parameter along an integer direction; 2 parameters for square x unit in the "
         "thorough tier); per path cell z3 decides with the query point free that the region of the returned shape is the Boolean combination of the operand regions off "
         "their boundaries (1.5e-6 band); raising / non-returning cells are violations where z3 finds a parameter with transversal boundaries.",
-        assumptions=["polygonal catalogue operands (<= 8 edges) incl. holes, several components, unbounded operands, Empty/Whole; expression depth <= 2", "curved operands outside"],
+        assumptions=["polygonal catalogue operands (<= 8 edges) incl. holes, several components, unbounded operands, Empty/Whole; expression depth <= 2",
+                     "operands with quadratic sides: concrete operand pairs and placements only (the crossing search is a Newton iteration); for each, z3 decides over all points of the "
+                     "plane (QF_NRA, degree 2) that the region bounded by the returned pieces is the Boolean combination, outside a 1e-5 band of the operand boundaries; cubic sides outside"],
     )
